@@ -373,8 +373,11 @@ func diffViews(m, d *View) []Diff {
 			out = append(out, Diff{Kind: "paths", Path: p, Mem: "present", Db: "absent"})
 		}
 	}
-	if fmt.Sprint(m.Pre) != fmt.Sprint(d.Pre) {
-		out = append(out, Diff{Kind: "pre", Mem: fmt.Sprint(m.Pre), Db: fmt.Sprint(d.Pre)})
+	// Which other chunks of a stream are handed to the pre-read callback is a caching matter and may differ between
+	// the stores; what must agree are the bytes returned by the reads (and every callback must carry the true bytes
+	// of the chunk it names: checked against the source files in exec).
+	if a, b := preReads(m.Pre), preReads(d.Pre); fmt.Sprint(a) != fmt.Sprint(b) {
+		out = append(out, Diff{Kind: "pre", Mem: fmt.Sprint(a), Db: fmt.Sprint(b)})
 	}
 	sort.SliceStable(out, func(i, j int) bool { return out[i].Path < out[j].Path })
 	return out
@@ -383,4 +386,14 @@ func diffViews(m, d *View) []Diff {
 func attrOnly(n Node) Node {
 	n.Path, n.Probes, n.Data, n.Off, n.Ino, n.Reg = nil, nil, "", 0, 0, false
 	return n
+}
+
+func preReads(ps []PreCall) []PreCall {
+	var out []PreCall
+	for _, p := range ps {
+		if strings.HasPrefix(p.Path, "<read ") {
+			out = append(out, p)
+		}
+	}
+	return out
 }
